@@ -73,6 +73,15 @@ Theorem C19_equivalent_schemes_same_order : forall s1 s2,
 Proof. exact equivalent_schemes_same_order. Qed.
 Print Assumptions C19_equivalent_schemes_same_order.
 
+(** an equivalence relation on schemes with non-negative penalties: nothing is lost by chaining comparisons with the presets *)
+Theorem C19_equivalence_relation :
+  (forall s, nonneg s -> is_equivalent_to s s = true) /\
+  (forall s1 s2, nonneg s1 -> nonneg s2 -> is_equivalent_to s1 s2 = true -> is_equivalent_to s2 s1 = true) /\
+  (forall s1 s2 s3, nonneg s1 -> nonneg s2 -> nonneg s3 ->
+     is_equivalent_to s1 s2 = true -> is_equivalent_to s2 s3 = true -> is_equivalent_to s1 s3 = true).
+Proof. exact (conj is_equivalent_refl (conj is_equivalent_sym is_equivalent_trans)). Qed.
+Print Assumptions C19_equivalence_relation.
+
 Theorem C19_equiv_spec_full : forall s1 s2,
   equiv_spec 6 s1 s2 <->
   exists p q, 0 < p /\ 0 < q /\ (forall i, p * Bv s1 i = q * Bv s2 i) /\ (forall i, p * Tv s1 i = q * Tv s2 i).
